@@ -17,6 +17,8 @@ mod c05;
 mod c06;
 mod c11;
 mod c12;
+mod c13;
+mod gen_wizard;
 mod c15;
 
 use common::Ctx;
@@ -58,6 +60,7 @@ fn main() {
         "c06" => c06::run(&mut ctx),
         "c11" => c11::run(&mut ctx),
         "c12" => c12::run(&mut ctx),
+        "c13" => c13::run(&mut ctx),
         "c15" => c15::run(&mut ctx),
         _ => {
             eprintln!("unknown suite {}", suite);
